@@ -1,10 +1,19 @@
 ---------------------------- MODULE CodecTrace ----------------------------
-(* Trace validation for C13.  One trace = one call of the real EtherCat.roundtrip:
-     event "send"   - the payload found in the send queue          (must be Payload(req))
-     event "return" - the response the bus stub gave and the value handed back to the caller
-                      (must be Decoded(req, response), as a tuple)
-   Anything else the call did (raising, not sending, not finishing) is recorded as an event
-   that no action of the specification matches.                                              *)
+(* Trace validation for C13.  One trace = one call of the real EtherCat.roundtrip, alone or
+   as one of several concurrent calls that the real send loop packs into frames:
+     event "send"      - the payload found in the send queue / in the call's own datagram of
+                         the frame on the wire                      (must be Payload(req))
+     event "return"    - the response the bus gave to this datagram and the value handed back
+                         to the caller        (must be Decoded(req, response), as a tuple)
+     event "error"     - the call raised EtherCatError: only when its OWN datagram came back
+                         unprocessed (T.wkc = 0)
+     event "cancelled" - the call ended cancelled: only when the environment cancelled it
+   What the environment did to this call is part of the trace: T.wkc (working counter its
+   datagram came back with) and T.cancel ("no", "early": before the frame left, "flight":
+   while it was on the wire).  Nothing about the other calls of the frame appears here: whatever
+   happened to them, this call must still send its payload and get its own decoded response.
+   Anything else the call did (another exception, not sending, not finishing) is recorded as
+   an event that no action of the specification matches.                                     *)
 EXTENDS Codec, Json, IOUtils, TLCExt
 Traces == JsonDeserialize(IOEnv.TRACE_FILE)
 VARIABLES tid, l, st        \* st: "idle" -> "sent" -> "done"
@@ -16,11 +25,18 @@ TSend(e) == /\ st = "idle" /\ e.op = "send"
             /\ SendOK(T.req, e.out) = TRUE
             /\ st' = "sent"
 TReturn(e) == /\ st = "sent" /\ e.op = "return"
+              /\ T.wkc # 0 /\ T.cancel = "no"
               /\ ReturnOK(T.req, e.resp, e.shape, e.items) = TRUE
               /\ st' = "done"
+TError(e) == /\ st = "sent" /\ e.op = "error"
+             /\ T.wkc = 0 /\ T.cancel = "no"
+             /\ st' = "done"
+TCancelled(e) == /\ st \in {"idle", "sent"} /\ e.op = "cancelled"
+                 /\ T.cancel # "no"
+                 /\ st' = "done"
 TNext == /\ l <= Len(T.ev)
          /\ l' = l + 1 /\ UNCHANGED tid
-         /\ LET e == T.ev[l] IN TSend(e) \/ TReturn(e)
+         /\ LET e == T.ev[l] IN TSend(e) \/ TReturn(e) \/ TError(e) \/ TCancelled(e)
 TSpec == TInit /\ [][TNext]_tvars
 
 Max2(a, b) == IF a > b THEN a ELSE b
